@@ -47,6 +47,8 @@ UniverseFull  == Plains \cup Nullables \cup Gen1 \cup Gen2 \cup Unions
 \* a smaller universe for the quick tier: unions over plain classes only
 UniverseSmall == Plains \cup Nullables \cup Gen1 \cup Gen2
                  \cup {U2(a, b) : a \in Plains, b \in {P("Int"), P("Str"), P("A"), P("C"), P("None"), P("E"), P("Float")}}
+                 \* unions of MIXED nullability (they only arise from written annotations: union formation makes all members nullable)
+                 \cup {U2(Q("A"), P("C")), U2(Q("A"), P("Int")), U2(Q("Int"), P("Str")), U2(Q("B"), P("A")), U2(Q("Float"), P("A"))}
 
 ----------------------------------------------------------------------------------------
 \* the property sentence as a definition
